@@ -11,7 +11,10 @@ check("C13", "model_checking",
       "(Refines, BaseUnchanged); every transition of the bounded model is replayed on the real BackedMemDb and the "
       "recorded observations are validated by TLC against the reference store; random long sequences likewise.",
       "bounds: 2 keys (quick) / 3 keys (thorough) x 2 values x batches <= 2, all base contents, all border pairs; random "
-      "sequences over 12 keys sampled; iteration is atomic; MemDB is the reference semantics",
+      "sequences over 12 keys sampled; iteration is atomic; MemDB is the reference semantics; chain level: canonical database "
+      "digest and live root around every speculative validation / proposal / read-only query, read-only view of the head and of "
+      "random retained heights vs what was committed, on seeded histories with fork switches (clauses CanonUntouched, "
+      "HistoricalExact, ReadonlyHeadExact of Trace_Replicas)",
       "TLA+ refinement model + TLC-exported edge cover replayed on real code + TLC trace validation",
       "DESIGN.md#c13")
 
@@ -28,3 +31,60 @@ check("C20", "model_checking",
       "goroutine are outside the schedules; data races are the race detector's verdict, not TLC's",
       "TLA+ interleaving model + exact schedule replay via virtual clock and hook gates + TLC trace validation",
       "DESIGN.md#c20")
+
+HOOK_COMMITS += ["1e5f6016"]
+
+_CHAIN_NOTE = ("bounds: quick 4 histories x 90 blocks, thorough 24 x 220, 6 real replicas (24-344 keys), V12 consensus configuration with "
+               "short switch ranges; epoch results injected per identity into the real ceremony.ApplyNewEpoch (cached-evaluation branch); "
+               "contract transactions belong to C15; the seeded generator samples the history space")
+
+check("C01", "model_checking",
+      "Replicas.tla states Agreement / ProposedAccepted over replicas with node-local histories; TLC enumerates the history shapes "
+      "(restart, rollback k + re-apply, speculation on another block, validate-then-insert) and exports them as schedules; every block "
+      "of seeded random histories is applied by the REAL code on 6 replicas following those schedules (2 in other host time zones, one "
+      "genesis with 344 identities); TLC validates the recorded observations against Trace_Replicas (Agreement, SameTransition, "
+      "LiveMatchesHead on head hash, roots, flags, epoch, period, next validation time, fee rate, VRF threshold, shards, discrimination "
+      "threshold, validator-view sizes).",
+      _CHAIN_NOTE + "; map-iteration-order coverage is by repetition across the 6 replicas of every block, not exhaustive",
+      "TLA+ replicated-state-machine spec + TLC-exported history schedules replayed on real replicas + TLC trace validation", "DESIGN.md#c01")
+check("C02", "model_checking",
+      "every block built by the real ProposeBlock / GenerateEmptyBlock from a seeded hostile mempool mix (valid, stale, gapped, "
+      "under-funded, wrong-period, wrong-epoch, replayed, malformed transactions of every plain type) travels as bytes to 5 other real "
+      "replicas reaching the same head through TLC-exported node-local history shapes and must pass ValidateBlock and AddBlock there; "
+      "clause ProposedAccepted of Trace_Replicas evaluated by TLC on the recorded verdicts.",
+      _CHAIN_NOTE, "TLA+ spec (Replicas) + TLC-exported schedules + real propose/validate on replicas + TLC trace validation", "DESIGN.md#c02")
+check("C04", "model_checking",
+      "Ledger.tla states NonNeg and BlockIssuance over the whole ledger; MC_Ledger checks the issuance bound and the nonce discipline on "
+      "an abstract ledger exhaustively; after every block of seeded histories on real chains the complete committed ledger (every "
+      "account and identity) is logged and TLC evaluates the clauses with exact BigNat limb arithmetic (Trace_Ledger).",
+      _CHAIN_NOTE + "; issuance bound per block = BlockReward + FinalCommitteeReward (+ that sum x epoch length on the validation-finished block)",
+      "TLA+ ledger spec with exact arithmetic + TLC model of the abstract ledger + TLC trace validation of real histories", "DESIGN.md#c04")
+check("C05", "model_checking",
+      "clause OnlySigner of Ledger.tla (no address other than the signer loses balance or stake, except the invitee of a KillInvitee by "
+      "its inviter and the delegator of a KillDelegator by its pool, evaluated on PRE-state relationships) checked by TLC on every "
+      "observed block that carries exactly one transaction and does not finish a validation; the generator aims every tx type at "
+      "targets in every relationship to the signer (self, god, pool, own / foreign invitee, own / foreign delegator, stranger, killed, "
+      "undefined).",
+      _CHAIN_NOTE, "TLA+ ledger spec + TLC trace validation of real single-transaction blocks", "DESIGN.md#c05")
+check("C06", "model_checking",
+      "MC_Ledger explores include / epoch-change / reorg behaviours of an abstract ledger exhaustively (NoDoubleOnChain, "
+      "ConsecutiveOnChain); on real histories TLC evaluates NoDouble, Consecutive, EpochMatch on the transaction lists of every inserted "
+      "block (applied set carried by the spec, fork switches remove reverted ids) and requires every crafted block that re-includes an "
+      "applied transaction, carries a foreign-epoch transaction or a nonce gap (transaction commitment recomputed) to be refused by "
+      "every replica.",
+      _CHAIN_NOTE, "TLA+ replay/nonce model checked by TLC + TLC trace validation of real histories and crafted replays", "DESIGN.md#c06")
+check("C10", "model_checking",
+      "ValidatorsIncr.tla transcribes UpdateFromIdentityStateDiff and loadValidNodes and TLC checks Update(Load(R),D) = Load(R+D) for all "
+      "3-address registries satisfying the coupling assumptions and all diffs of <= 2 entries; on real identity-heavy histories TLC "
+      "evaluates, after every block, equality of the incrementally maintained view and a freshly loaded one through every public getter "
+      "and committee samples, the coupling assumptions themselves, and the registry/ledger clauses (validated iff Newbie/Verified/Human, "
+      "delegations match, only validated identities or pools online).",
+      _CHAIN_NOTE + "; the order of a pool's delegator list is observed through FindSubIdentity samples only",
+      "TLA+ transcription of incremental vs rebuilt view checked by TLC + TLC trace validation of real histories", "DESIGN.md#c10")
+check("C11", "model_checking",
+      "SyncStore.tla models the per-height identity-diff store under block insertion and fork switches (FollowerRoot checked by TLC); on "
+      "real histories with fork switches followers replay, from the genesis identity state, every identity diff the node serves "
+      "(transported as bytes) through the real AddDiff and compare each root with the canonical header (clause FollowerRoot). Snapshot "
+      "export/import part: see level_note.",
+      _CHAIN_NOTE + "; snapshot corruption part (C11b) is not built in this revision: only the identity-diff half of the property is decided",
+      "TLA+ diff-store model + follower replay on real chains + TLC trace validation", "DESIGN.md#c11")
